@@ -682,6 +682,7 @@ class HistoryRun:
                         if t:
                             t.register(f)
                             t.event("(fattr %d %s)" % (t.ref(sim.ds.functions), hx("mean")))
+                        n_sent = len(sim.sent)
                         res = f(sim.ds["a"], 0)
                         if t:
                             t.register(res)
@@ -691,6 +692,10 @@ class HistoryRun:
                             dec = 1
                         except AttributeError:
                             dec = 0        # open_dods_url uses `r.body`, absent on requests.Response (C19's finding)
+                        if len(sim.sent) == n_sent:
+                            self.fail("a server-function result was fetched without a request through the dataset's "
+                                      "session (other datasets were opened on the same URL with other sessions before)",
+                                      "no request handed to this dataset's session", "at least one GET through it")
                         if t:
                             t.event("(rget %d %d)" % (t.ref(res), dec))
                 except Exception as e:
